@@ -262,9 +262,13 @@ def check(run, ctx):
     ok = len(comps) == 2 and all(len(n.generators[0].ifs) == 1 and ast.unparse(n.generators[0].iter) == par for n in comps) and [c.split(".")[-1] for c in conds] == ["is_dir()", "is_file()"] and not [n for n in ast.walk(sf.node) if isinstance(n, (ast.For, ast.While))]
     (run.ok(W5, "separate_files_and_dirs", f"partition by {conds}") if ok else run.finding(W5, "separate_files_and_dirs", f"extra-filter:{conds}", "targets are filtered by more than is_file()/is_dir(): an explicitly named file can be dropped before it is linted", sf.loc))
     el = repo.func("src.cli.utils.execute_linting_on_paths")
-    for callee, var in (("lint_files", "files"), ("lint_files_parallel", "files")):
+    # the file group = first element of the tuple bound from separate_files_and_dirs(...), whatever the local is called
+    file_vars = {t.elts[0].id for a in ast.walk(el.node) if isinstance(a, ast.Assign) and is_call_named(a.value, sf.name) for t in a.targets if isinstance(t, ast.Tuple) and t.elts and isinstance(t.elts[0], ast.Name)}
+    run.require(len(file_vars) == 1, "execute_linting_on_paths: the (files, dirs) pair returned by separate_files_and_dirs is not unpacked once")
+    var = next(iter(file_vars))
+    for callee in ("lint_files", "lint_files_parallel"):
         c = next((n for n in inline.flat_nodes(repo, el) if is_call_named(n, callee)), None)   # dispatch helpers inlined, parameters substituted
-        (run.ok(W5, f"execute_linting_on_paths -> {callee}", f"receives `{var}` unchanged") if c is not None and c.args and isinstance(c.args[0], ast.Name) and c.args[0].id == var else run.finding(W5, "execute_linting_on_paths", f"arg:{callee}", f"{callee} does not receive the unfiltered file group", el.loc))
+        (run.ok(W5, f"execute_linting_on_paths -> {callee}", "receives the file group unchanged") if c is not None and c.args and isinstance(c.args[0], ast.Name) and c.args[0].id == var else run.finding(W5, "execute_linting_on_paths", f"arg:{callee}", f"{callee} does not receive the unfiltered file group", el.loc))
     W6 = run.rule("W6", "repository ignore patterns reach the matcher as written: between reading .thailintignore / the `ignore:` list and matching, a pattern is only trimmed of surrounding whitespace", floor=2,
                   decides="a pattern such as `.tools/**` or `../shared/` excludes what it names - no character of it is stripped, replaced or case-folded on the way")
     lr = repo.func("src.linter_config.ignore._load_repo_ignores")
